@@ -91,11 +91,15 @@ impl LruManager {
         let idx = if let Some(free_idx) = self.free_list.pop() {
             free_idx
         } else {
-            // Evict LRU tail to make room
-            let Some(evicted) = self.evict_tail() else {
+            // Evict LRU tail to make room; the freed slot is returned to the
+            // free list by `evict_tail`, so take it back from there.
+            if self.evict_tail().is_none() {
+                return false;
+            }
+            let Some(free_idx) = self.free_list.pop() else {
                 return false;
             };
-            evicted
+            free_idx
         };
 
         // Initialize the entry
@@ -125,6 +129,7 @@ impl LruManager {
         self.key_map.remove(&entry.ekey);
         self.unlink(tail);
         self.entries[tail as usize] = LruFileEntry::empty();
+        self.free_list.push(tail);
 
         Some(tail)
     }
